@@ -7,6 +7,7 @@ import (
 	"fmt"
 	"math/rand"
 	"os"
+	"os/exec"
 	"runtime"
 	"sort"
 	"strings"
@@ -195,6 +196,36 @@ func cmdCostCheck(args []string) int {
 			rf.Key, rf.Detail = key, det
 			res.Violations = append(res.Violations, ViolationRec{Finding{"C14", key, det}, writeCostReplay(rf)})
 		}
+	}
+	// (0) failures that cannot be recovered from (unbounded recursion: "fatal error: stack overflow") kill the process, so the
+	// entry points are first tried in a child process: every entry point, destinations with and without WriteString
+	if os.Getenv("VERIF_CHILD_PROBE") == "" {
+		cmd := exec.Command(os.Args[0], "costcheck", "-job", "child-probe")
+		cmd.Env = append(os.Environ(), "VERIF_CHILD_PROBE=1")
+		out, err := cmd.CombinedOutput()
+		res.Execs++
+		if err != nil {
+			txt := string(out)
+			if i := strings.Index(txt, "fatal error"); i >= 0 {
+				txt = txt[i:]
+			}
+			if len(txt) > 600 {
+				txt = txt[:600]
+			}
+			add("fatal:entry-points", fmt.Sprintf("a child process that calls every entry point once on a small document died: %v: %s", err, txt),
+				CostReplayFile{Kind: "input", Input: "child probe: Sanitize, SanitizeBytes, SanitizeReader, SanitizeReaderToWriter (string and plain destinations) on <p>Hello <b>w</b></p>"})
+		}
+	} else {
+		p := bm.UGCPolicy()
+		in := `<p>Hello <b>world</b> <a href="http://e.com/">l</a></p><!-- c --><script>x</script>`
+		p.Sanitize(in)
+		p.SanitizeBytes([]byte(in))
+		p.SanitizeReader(strings.NewReader(in))
+		var sb strings.Builder
+		p.SanitizeReaderToWriter(strings.NewReader(in), &sb)
+		var pd plainDest
+		p.SanitizeReaderToWriter(strings.NewReader(in), &pd)
+		os.Exit(0)
 	}
 	// a stall watchdog for the sweeps below: every call announces its input; if the announcement does not change for 30 s the
 	// call is stuck (it cannot be cancelled), so the finding is recorded, the result written and the process left
